@@ -394,7 +394,8 @@ def stage_e2e_value(ctx):
         return
     import json as _json
     from .. import proj as P
-    vals = [b" Pets", b"Pets ", b"\tPets", b"Pets\t", b" Pets \t", b"a  b", b"  a  ", b"\xc2\xa0Pets\xc2\xa0", b"Pets\xe3\x80\x80", b"x", b" x", b"# not a comment ", b" // x "]
+    vals = [b" Pets", b"Pets ", b"\tPets", b"Pets\t", b" Pets \t", b"a  b", b"  a  ", b"\xc2\xa0Pets\xc2\xa0", b"Pets\xe3\x80\x80", b"x", b" x", b"# not a comment ", b" // x ",
+            b"noformat", b"NOFORMAT", b"NoFormat", b"htmlformencoded", b"HTMLFORMENCODED", b"Any", b"REGEX", b"Empty"]
     slots = [(b"JSIGHT 0.3\nINFO\n  Title {V}\n", lambda j: j.get("info", {}).get("title")),
              (b"JSIGHT 0.3\nINFO\n  Title \"t\"\n  Version {V}\n", lambda j: j.get("info", {}).get("version")),
              (b"JSIGHT 0.3\nSERVER @s\n  BaseUrl {V}\n", lambda j: j.get("servers", {}).get("@s", {}).get("baseUrl")),
